@@ -3,7 +3,7 @@ CONSTANTS
   MaxOps = 4
   MaxPool = 5
   MaxGenes = 6
-  MaxNodes = 6
+  MaxNodes = 5
   MaxGens = 1
   Starts = {2}
 INVARIANTS AllWellFormed AllRetain OneMeaningPerNumber OneRolePerNode CountersAhead RegistryFunctional StepStatements
